@@ -11,7 +11,7 @@ impl Topology {
         } else {
             let mut dist = 0.0;
             for i in 0..i1.len() {
-                dist += (i1[i] as f32 - i2[i] as f32).powf(2.0);
+                dist += (i1[i].abs_diff(i2[i]) as f32).powf(2.0);
             }
             Some(f32::sqrt(dist))
         }
